@@ -119,7 +119,7 @@ theorem parseInline_line (cfg : Cfg) (fuel sid : Nat) (parent : Option CbData) (
     · simp at h; subst h; decide)]
   rw [htrim]
   have hcond : ((buf = []) || (buf.head? == some 35)) = false := by simp [hne, hh]
-  simp only [hcond, Bool.false_eq_true, if_false, hbr]
+  simp only [drain_nl, Bool.false_and, hcond, Bool.false_eq_true, if_false, hbr]
   unfold lineBody
   simp only [htok]
   rfl
@@ -301,7 +301,7 @@ theorem parseInline_skip' (cfg : Cfg) (fuel sid : Nat) (parent : Option CbData) 
   rw [htz]
   have hcond : ((Str.trim (line ++ [10]) = []) || ((Str.trim (line ++ [10])).head? == some 35)) = true := by
     rcases hskip with h | h <;> simp [h]
-  simp only [hcond, if_true]
+  simp only [drain_nl, Bool.false_and, Bool.false_eq_true, if_false, hcond, if_true]
 
 theorem toList_reverse (ev : Option Event) : ev.toList.reverse = ev.toList := by
   cases ev <;> rfl
@@ -658,28 +658,11 @@ theorem parseInline_doc (cfg : Cfg) (d : AcDoc) :
       exact ih c parent f oc ns (ln + 1) evs tail hokr hlink hlev hfr
     | comment ws text =>
       obtain ⟨hws, htext, hlen⟩ := hl
-      have hp := wsRun_props hws
-      have hno : ∀ c ∈ ws ++ [35] ++ text, c ≠ 10 := by
-        intro c hc
-        rcases List.mem_append.mp hc with h | h
-        · rcases List.mem_append.mp h with h | h
-          · exact hp.1 c h
-          · simp at h; subst h; decide
-        · exact (htext c h).1
-      have hnz : ∀ c ∈ ws ++ [35] ++ text, c ≠ 0 := by
-        intro c hc
-        rcases List.mem_append.mp hc with h | h
-        · rcases List.mem_append.mp h with h | h
-          · exact hp.2 c h
-          · simp at h; subst h; decide
-        · exact (htext c h).2
-      have hskip : (Str.trim (ws ++ [35] ++ text ++ [10])).head? = some 35 := by
-        obtain ⟨ys, h⟩ := Ini.trim_head ws (text ++ [10]) 35 (wsRun_isWs hws) (by decide)
-        have e : ws ++ [35] ++ text ++ [10] = ws ++ 35 :: (text ++ [10]) := by simp
-        rw [e, h]; rfl
       simp only [renderLine]
-      rw [parseInline_skip' cfg f c.sid parent oc ns ln evs _ _ hno hnz
-        (by simp only [List.length_append, List.length_cons, List.length_nil]; omega) (Or.inr hskip)]
+      have := parseInline_comment cfg f c.sid parent oc ns ln evs ws text (10 :: (renderAc rest ++ tail)) hws htext hlen
+        (Or.inr ⟨_, rfl⟩) (by intro h; cases h)
+      simp only [List.drop_succ_cons, List.drop_zero] at this
+      rw [this]
       simp only [specDoc, nsAfter]
       exact ih c parent f oc ns (ln + 1) evs tail hokr hlink hlev hfr
     | dir args trail =>
